@@ -264,7 +264,7 @@ def _analyse(root, ftype, name, tier):
 
 
 # relative bound per tier: (narrow functions, functions whose partition is two-dimensional or as fine as the lattice)
-DELTA = {"quick": (2.0 ** -8, 2.0 ** -3), "thorough": (2.0 ** -11, 2.0 ** -5)}
+DELTA = {"quick": (2.0 ** -8, 2.0 ** -3), "thorough": (2.0 ** -11, 2.0 ** -4)}
 WIDE = {"hypot"}
 
 
